@@ -192,7 +192,7 @@ _cases_plain = cases
 def cases(rng, tier):
     for c in _cases_plain(rng, tier):
         if c.lines and c.lines[0].startswith("sim.new"):
-            c.lines = [x for l in c.lines for x in ((l, "sim.dstats") if l == "sim.snap" else (l,))]
+            c.lines = [x for l in c.lines for x in ((l, "sim.dstats", "sim.dcachetable") if l == "sim.snap" else (l,))]
         yield c
 
 
